@@ -257,3 +257,65 @@ impl Report {
         }
     }
 }
+
+
+/// The provided `Iterator` methods a type may override (`nth`, hence `skip` / `step_by`; `last`,
+/// `count`, `size_hint`) must agree with plain `next()` iteration.  `mk` builds a fresh iterator over
+/// the same items each time; `show` renders an item.  The adaptor methods are called on the
+/// iterator itself (not behind a `map`, which would fall back to the default `nth`).
+pub fn iter_forms<I: Iterator>(mk: &mut dyn FnMut() -> I, show: &dyn Fn(I::Item) -> String, rng: &mut Rng) -> Result<usize, String> {
+    let base: Vec<String> = {
+        let mut it = mk();
+        let mut v = Vec::new();
+        while let Some(x) = it.next() {
+            v.push(show(x));
+            if v.len() > 1 << 20 {
+                return Err("iterator does not end".into());
+            }
+        }
+        v
+    };
+    let n = base.len();
+    let mut checks = 0usize;
+    let (lo, hi) = mk().size_hint();
+    checks += 1;
+    if lo > n || hi.map(|h| h < n).unwrap_or(false) {
+        return Err(format!("size_hint() = ({}, {:?}) but the iterator yields {} items", lo, hi, n));
+    }
+    let mut ks: Vec<usize> = vec![0, 1, 2, n.saturating_sub(1), n, n + 1];
+    ks.push(rng.below(n as u128 + 2) as usize);
+    for &k in &ks {
+        checks += 3;
+        let mut it = mk();
+        let got = it.nth(k).map(|x| show(x));
+        if got.as_ref() != base.get(k) {
+            return Err(format!("nth({}) = {:?} but next() iteration gives {:?} there", k, got, base.get(k)));
+        }
+        let rest: Vec<String> = it.map(|x| show(x)).collect();
+        let want: Vec<String> = base.iter().skip(k + 1).cloned().collect();
+        if rest != want {
+            return Err(format!("after nth({}) the iterator continues with {:?}, expected {:?}", k, &rest[..rest.len().min(4)], &want[..want.len().min(4)]));
+        }
+        let got = mk().skip(k).next().map(|x| show(x));
+        if got.as_ref() != base.get(k) {
+            return Err(format!("skip({}).next() = {:?} but next() iteration gives {:?} there", k, got, base.get(k)));
+        }
+    }
+    for s in [1usize, 2, 3, n.max(1), n + 1] {
+        checks += 1;
+        let got: Vec<String> = mk().step_by(s).map(|x| show(x)).collect();
+        let want: Vec<String> = base.iter().step_by(s).cloned().collect();
+        if got != want {
+            return Err(format!("step_by({}) yields {:?}…, expected {:?}…", s, &got[..got.len().min(4)], &want[..want.len().min(4)]));
+        }
+    }
+    checks += 2;
+    if mk().last().map(|x| show(x)).as_ref() != base.last() {
+        return Err("last() differs from the last item of next() iteration".into());
+    }
+    let c = mk().count();
+    if c != n {
+        return Err(format!("count() = {} but next() iteration yields {} items", c, n));
+    }
+    Ok(checks)
+}
